@@ -344,11 +344,13 @@ func writeAtomically(b []byte, filename string) error {
 	if err := tempFile.Close(); err != nil {
 		return fmt.Errorf("%s: %w", filename, err)
 	}
-	if info, err := os.Stat(filename); err == nil {
-		// keep the permission bits of the file being replaced, os.CreateTemp creates with mode 0600
-		if err := os.Chmod(tempFile.Name(), info.Mode().Perm()); err != nil {
-			return fmt.Errorf("%s: %w", filename, err)
-		}
+	// keep the permission bits of the file being replaced, os.CreateTemp creates with mode 0600
+	info, err := os.Stat(filename)
+	if err != nil {
+		return fmt.Errorf("%s: %w", filename, err)
+	}
+	if err := os.Chmod(tempFile.Name(), info.Mode().Perm()); err != nil {
+		return fmt.Errorf("%s: %w", filename, err)
 	}
 	if err := os.Rename(tempFile.Name(), filename); err != nil {
 		return fmt.Errorf("%s: %w", filename, err)
